@@ -1337,6 +1337,35 @@ def rule_once_c18(ctx):
         r.ok()
     else:
         r.fail(Finding("R-ONCE/C18", "R-ONCE|schema.Schema.add_schema|path", f"{f.file}:{loop.lineno}", "the added rule's path must be `root_path / rule.path` (root on the left)", []))
+    # `root / path` keeps what the right operand selects *and* how it reads it: its datum / multiplicity modifier
+    dv = prog.cls("datapath.DataPath").lookup_method("__truediv__")
+    if dv is None:
+        r.undecided.append({"what": "DataPath.__truediv__ not found"})
+        return r
+    dv = prog.flat(dv.qualname)
+    o = dv.params[1].name if len(dv.params) > 1 else "other"
+    decided = False
+    for n in ast.walk(dv.node):
+        if isinstance(n, ast.Return) and isinstance(n.value, ast.Call) and norm(n.value.func) in ("DataPath", "self.__class__", "type(self)"):
+            facts = facts_at(prog, dv, n, canon)
+            if not any(f"isinstance({o}, DataPath)" in x for x in facts):
+                continue
+            decided = True
+            starred = [norm(a.value) for a in n.value.args if isinstance(a, ast.Starred)]
+            kws = {k.arg: norm(k.value) for k in n.value.keywords if k.arg}
+            inst = {"path / path builds": norm(n.value)[:120]}
+            r.instances.append(inst)
+            keeps = all(k in kws and f"{o}." in kws[k] for k in ("datum_type", "multi_type"))
+            if f"{o}.parts" in starred and keeps:
+                r.ok()
+            elif f"{o}.parts" in starred:
+                r.fail(Finding("R-ONCE/C18", "R-ONCE|datapath.DataPath.__truediv__|modifiers", f"{dv.file}:{n.lineno}",
+                               f"`{norm(n.value)[:100]}` concatenates the parts but drops the right operand's datum / multiplicity modifier: a rule on `DataPath('a').length()` "
+                               f"added under a root is re-rooted to a path without `.length()` and judges the value instead of its length", []))
+            else:
+                r.undecided.append(inst)
+    if not decided:
+        r.undecided.append({"what": "the DataPath / DataPath branch of __truediv__ is not in the recognised form"})
     return r
 
 
@@ -1600,6 +1629,57 @@ def rule_guarded(ctx):
             r.fail(Finding("R-GUARDED", f"R-GUARDED|datapath.DataPath.simplify|{kind}", f"{f.file}:{sb.lineno}",
                            f"`{norm(sb)}` is emitted as a primitive part without the guard(s) {missing}: a part with a different kind of condition "
                            f"(e.g. Key.length.equal_to(3), a non-equality or combined condition) would be serialised as the bare value of its argument", []))
+    # what a plain part means is fixed by the constructor: which types become a map part, which a map-or-list
+    # part.  simplify() may emit the bare value only for values the constructor turns back into the same part.
+    init = prog.flat("datapath.DataPath.__init__")
+    conv = {}
+    for n in ast.walk(init.node):
+        if isinstance(n, ast.If) and isinstance(n.test, ast.Call) and norm(n.test.func) == "isinstance" and len(n.test.args) == 2:
+            t = n.test.args[1]
+            types = frozenset(norm(x) for x in (t.elts if isinstance(t, ast.Tuple) else [t]))
+            for st in n.body:
+                if isinstance(st, ast.Assign) and isinstance(st.value, ast.Call) and isinstance(st.value.func, ast.Name) and st.value.func.id in ("MapValue", "ListValue", "MapOrListValue"):
+                    conv[st.value.func.id] = types
+    r.instances.append({"plain part conversion (DataPath.__init__)": {k: sorted(v) for k, v in conv.items()}})
+
+    def typed(facts, expr_txt):
+        """type names T such that `isinstance(<expr>, T)` is among the facts"""
+        out = set()
+        for ftxt in facts:
+            try:
+                e = ast.parse(ftxt, mode="eval").body
+            except SyntaxError:
+                continue
+            for c in ast.walk(e):
+                if isinstance(c, ast.Call) and norm(c.func) == "isinstance" and len(c.args) == 2 and norm(c.args[0]) == expr_txt and not ftxt.startswith("not "):
+                    t = c.args[1]
+                    out.add(frozenset(norm(x) for x in (t.elts if isinstance(t, ast.Tuple) else [t])))
+        return out
+    for sb in sites:
+        app = next((p_ for p_ in _parents(sb) if isinstance(p_, ast.Call) and isinstance(p_.func, ast.Attribute) and p_.func.attr == "append"), None)
+        if app is None:
+            continue
+        facts = facts_at(prog, f, sb, cf)
+        etxt = cf(sb)
+        kind = "map_or_list" if "list_condition" in norm(sb) or "map_condition" in norm(sb) else "map"
+        want = conv.get("MapValue" if kind == "map" else "MapOrListValue")
+        inst = {"emitted plain part": etxt, "kind": kind, "constructor accepts": sorted(want) if want else None, "type guards": [sorted(x) for x in typed(facts, etxt)]}
+        r.instances.append(inst)
+        if want is None:
+            r.undecided.append(inst)
+            continue
+        ok = any(t <= want for t in typed(facts, etxt))
+        why = f"no dominating `isinstance({etxt}, ({', '.join(sorted(want))}))`"
+        if ok and kind == "map_or_list":
+            other = etxt.replace("list_condition", "map_condition") if "list_condition" in etxt else etxt.replace("map_condition", "list_condition")
+            ok = f"{etxt} == {other}" in facts or f"{other} == {etxt}" in facts
+            why = f"no dominating `{other} == {etxt}` (the key and the index of a plain integer part are the same value)"
+        if ok:
+            r.ok()
+        else:
+            r.fail(Finding("R-GUARDED", f"R-GUARDED|datapath.DataPath.simplify|{kind}|plain-type", f"{f.file}:{sb.lineno}",
+                           f"`{etxt}` is emitted as a plain part, but {why}: the constructor turns a plain value of another type into a different part "
+                           f"(MapValue(1) -> 1 -> key-or-index 1; MapOrListValue(key='a', index=0) -> 0), so the serialised path selects differently", []))
     if len(sites) < 2:
         raise AnalysisError("DataPath.simplify: the two `...callable.kwargs['value']` emission sites not found")
     # sweep: every other read of a condition's 'value' argument in the package must sit under a guard on the callable's name
